@@ -92,6 +92,31 @@ def includeFnEval (fn : Nat) (dir : Option Bytes) (path : Bytes) :
     | [] => (some [], none)
     | _ => (some ((path.splitOn 124).map join), none)
 
+/-- The numeric rule actions of lib/scanner.l: token returned and value stored in
+`yylval` for the matched text (TOK_ERROR when the literal cannot be represented). -/
+def numericTok (a : ScanAct) (text : Bytes) : Nat × TokVal :=
+  match a with
+  | .tokFloat t errTok =>
+    let b := F64.strtod text
+    if F64.isInf b then (errTok, {}) else (t, { fval := b })
+  | .tokInteger t32 t64 errTok =>
+    match parseInteger text with
+    | none => (errTok, {})
+    | some v => if fits32 v then (t32, { ival := v }) else (t64, { ival := v })
+  | .tokInteger64 t errTok =>
+    match parseInteger text with
+    | none => (errTok, {})
+    | some v => (t, { ival := v })
+  | .tokHex t errTok =>
+    match parseHex64 text with
+    | none => (errTok, {})
+    | some v => if v > 4294967295 then (errTok, {}) else (t, { ival := wrap32 v })
+  | .tokHex64 t errTok =>
+    match parseHex64 text with
+    | none => (errTok, {})
+    | some v => (t, { ival := wrap64 v })
+  | _ => (0, {})
+
 /-- outcome of one call of `yylex` -/
 inductive LexOut where
   | tok (t : Nat) (v : TokVal)
@@ -195,25 +220,9 @@ def yylex (T : FlexTables) (acts : List ScanAct) (w : World) (ic : IncludeCfg) :
       | .tok t => (s, .tok t {})
       | .tokBool t v => (s, .tok t { ival := v })
       | .tokName t => (s, .tok t { sval := text })
-      | .tokFloat t errTok =>
-        let b := F64.strtod text
-        if F64.isInf b then (s, .tok errTok {}) else (s, .tok t { fval := b })
-      | .tokInteger t32 t64 errTok =>
-        match parseInteger text with
-        | none => (s, .tok errTok {})
-        | some v => if fits32 v then (s, .tok t32 { ival := v }) else (s, .tok t64 { ival := v })
-      | .tokInteger64 t errTok =>
-        match parseInteger text with
-        | none => (s, .tok errTok {})
-        | some v => (s, .tok t { ival := v })
-      | .tokHex t errTok =>
-        match parseHex64 text with
-        | none => (s, .tok errTok {})
-        | some v => if v > 4294967295 then (s, .tok errTok {}) else (s, .tok t { ival := wrap32 v })
-      | .tokHex64 t errTok =>
-        match parseHex64 text with
-        | none => (s, .tok errTok {})
-        | some v => (s, .tok t { ival := wrap64 v })
+      | .tokFloat .. | .tokInteger .. | .tokInteger64 .. | .tokHex .. | .tokHex64 .. =>
+        let (t, v) := numericTok (acts.getD rule .unknown) text
+        (s, .tok t v)
       | .echo => (s, .echo (text.headD 0))
       | .unknown => (s, .outOfFuel)
 
